@@ -18,6 +18,7 @@ func init() {
 		Explanation: "Access lists. Decided: (D1) the server installs itself as the proxy's pre-request hook, and in the pinned dnsproxy the request handler (and the default resolver) run only after that hook returned nil, a reply being sent only for a BeforeRequestError; (D2) admission: the hook returns nil only when the client is not blocked and (for single-question requests) the name is not on the blocked-hosts list, and nothing reachable from the hook touches the query log, the statistics or an upstream; " +
 			"(D3) silent drop vs REFUSED: for UDP and DNSCrypt the hook returns a plain error (no reply), for every other transport a BeforeRequestError whose response is built by makeResponseREFUSED; (D4) allow-list vs block-list mode: allow-list mode is decided from all three allowed collections; the allowed collections are consulted only in allow-list mode and the disallowed ones only otherwise; a client is reported blocked only when (allow-list mode and both address and ClientID are excluded) or (block-list mode and at least one is excluded); the decision reads one snapshot of the access manager under the server lock. " +
 			"(D5) no configured entry is dropped: in the list builder every iteration that does not return an error records the entry — the parsed address in the address set, the parsed prefix appended to the network list, or the string in the ClientID set — and both lists of the access manager are built by it from the configured slices; the address check tests every stored network (the scan leaves the loop early only by returning a match). " +
+			"(D4, cont.) the blocked decision of IsBlockedClient is evaluated abstractly for all 16 combinations of (address given, address excluded, allow-list mode, ClientID excluded) and must equal the access rule, through whatever helpers and control flow compute it; (D5, cont.) every configured blocked-host rule is lower-cased where the engine's rule text is built (request names are matched lower-cased). " +
 			"Not decided: CIDR containment and zone handling, ClientID case, blocked-host pattern semantics (value-level).",
 		RuleText:    "CFG edge guards on SSA, phi-leaf classification of the decision inputs, call-graph reachability restricted to static module callees.",
 		Assumptions: []string{"dnsproxy v0.75.3 shape asserted on its loaded source (handleBefore before RequestHandler)"},
@@ -444,70 +445,75 @@ func c03Modes(c *Ctx) {
 		}
 		return out
 	}
-	nTrue := 0
-	// places where the result becomes true: stores of true into the result cell, or
-	// constant-true leaves of the returned value (phi edges are attributed to the end of their predecessor block)
-	var trueSites []ssa.Instruction
-	for _, b := range ib.Blocks {
-		if b == ib.Recover {
-			continue
-		}
-		for _, in := range b.Instrs {
-			switch x := in.(type) {
-			case *ssa.Store:
-				if blockedCell == nil || x.Addr != ssa.Value(blockedCell) {
-					continue
-				}
-				bv, isC := core.ConstBool(x.Val)
-				if isC && bv {
-					trueSites = append(trueSites, in)
-				} else if !isC {
-					if u, ok := x.Val.(*ssa.UnOp); ok && u.X == ssa.Value(blockedCell) {
+	// First the decision as a whole: the blocked result evaluated abstractly for every combination of the four
+	// inputs (address given, address excluded, allow-list mode, ClientID excluded), through whatever helpers and
+	// control flow compute it.  When the evaluator cannot decide some combination, the path rule below decides.
+	if !c03DecisionTable(c, ib) {
+		nTrue := 0
+		// places where the result becomes true: stores of true into the result cell, or
+		// constant-true leaves of the returned value (phi edges are attributed to the end of their predecessor block)
+		var trueSites []ssa.Instruction
+		for _, b := range ib.Blocks {
+			if b == ib.Recover {
+				continue
+			}
+			for _, in := range b.Instrs {
+				switch x := in.(type) {
+				case *ssa.Store:
+					if blockedCell == nil || x.Addr != ssa.Value(blockedCell) {
 						continue
 					}
-					r.Fail("C03-D4", "IsBlockedClient:blocked-not-constant", p.InstrPos(in), "the blocked result is computed by an unrecognised expression")
-				}
-			case *ssa.Return:
-				if blockedCell != nil || len(x.Results) < 1 {
-					continue
-				}
-				var walk func(v ssa.Value, at ssa.Instruction, depth int)
-				walk = func(v ssa.Value, at ssa.Instruction, depth int) {
-					if depth > 4 {
-						return
-					}
-					if bv, isC := core.ConstBool(v); isC {
-						if bv {
-							trueSites = append(trueSites, at)
+					bv, isC := core.ConstBool(x.Val)
+					if isC && bv {
+						trueSites = append(trueSites, in)
+					} else if !isC {
+						if u, ok := x.Val.(*ssa.UnOp); ok && u.X == ssa.Value(blockedCell) {
+							continue
 						}
-						return
+						r.Fail("C03-D4", "IsBlockedClient:blocked-not-constant", p.InstrPos(in), "the blocked result is computed by an unrecognised expression")
 					}
-					if phi, ok := v.(*ssa.Phi); ok {
-						for i, e := range phi.Edges {
-							pred := phi.Block().Preds[i]
-							walk(e, pred.Instrs[len(pred.Instrs)-1], depth+1)
+				case *ssa.Return:
+					if blockedCell != nil || len(x.Results) < 1 {
+						continue
+					}
+					var walk func(v ssa.Value, at ssa.Instruction, depth int)
+					walk = func(v ssa.Value, at ssa.Instruction, depth int) {
+						if depth > 4 {
+							return
 						}
-						return
+						if bv, isC := core.ConstBool(v); isC {
+							if bv {
+								trueSites = append(trueSites, at)
+							}
+							return
+						}
+						if phi, ok := v.(*ssa.Phi); ok {
+							for i, e := range phi.Edges {
+								pred := phi.Block().Preds[i]
+								walk(e, pred.Instrs[len(pred.Instrs)-1], depth+1)
+							}
+							return
+						}
+						r.Fail("C03-D4", "IsBlockedClient:blocked-not-constant", p.InstrPos(at), "the blocked result is computed by an unrecognised expression")
 					}
-					r.Fail("C03-D4", "IsBlockedClient:blocked-not-constant", p.InstrPos(at), "the blocked result is computed by an unrecognised expression")
+					walk(core.Res(x, 0), in, 0)
 				}
-				walk(core.Res(x, 0), in, 0)
 			}
 		}
-	}
-	for _, in := range trueSites {
-		{
-			nTrue++
-			sink := func(x ssa.Instruction) bool { return x == in }
-			un := func(g map[core.Edge]bool) bool { off, _ := core.UnguardedSinks(ib, sink, g); return len(off) == 0 }
-			caseA := un(edges(isMode, true)) && un(edges(isByIP, true)) && un(edges(isByCID, true))
-			caseB := un(edges(isMode, false)) && un(union(edges(isByIP, true), edges(isByCID, true)))
-			r.Check(caseA || caseB, "C03-D4", fmt.Sprintf("IsBlockedClient:blocked-true#%d", nTrue), p.InstrPos(in),
-				"blocked is set only when (allow-list mode and address and ClientID are both excluded) or (block-list mode and one of them is excluded)",
-				"a client can be reported blocked on a path that satisfies neither the allow-list rule (both excluded) nor the block-list rule (one excluded)")
+		for _, in := range trueSites {
+			{
+				nTrue++
+				sink := func(x ssa.Instruction) bool { return x == in }
+				un := func(g map[core.Edge]bool) bool { off, _ := core.UnguardedSinks(ib, sink, g); return len(off) == 0 }
+				caseA := un(edges(isMode, true)) && un(edges(isByIP, true)) && un(edges(isByCID, true))
+				caseB := un(edges(isMode, false)) && un(union(edges(isByIP, true), edges(isByCID, true)))
+				r.Check(caseA || caseB, "C03-D4", fmt.Sprintf("IsBlockedClient:blocked-true#%d", nTrue), p.InstrPos(in),
+					"blocked is set only when (allow-list mode and address and ClientID are both excluded) or (block-list mode and one of them is excluded)",
+					"a client can be reported blocked on a path that satisfies neither the allow-list rule (both excluded) nor the block-list rule (one excluded)")
+			}
 		}
+		r.Floor("C03-D4", "blocked-true-assignments", nTrue, 2)
 	}
-	r.Floor("C03-D4", "blocked-true-assignments", nTrue, 2)
 	// converse: in allow-list mode with address admitted OR ClientID admitted -> not blocked is covered by the above (true only under the rules);
 	// completeness of blocking: from the (mode true, byIP true, byCID true) edge every path sets blocked
 	// one snapshot under the lock
@@ -561,7 +567,59 @@ func c03Modes(c *Ctx) {
 }
 
 // c03Entries: D5.
+// c03HostRuleCase: the blocked-hosts rules are matched against lower-cased
+// request names (the matcher lower-cases the name, not the rule), so every
+// configured rule, wherever it comes from, is lower-cased where the rule text
+// of the engine is built.
+func c03HostRuleCase(c *Ctx) {
+	p, r := c.P, c.R
+	fn := p.Fn("dnsforward.newAccessCtx")
+	if fn == nil || len(fn.Params) != 3 {
+		r.Undecided("C03-D5", "newAccessCtx", "-", "anchor not found")
+		return
+	}
+	hosts := fn.Params[2]
+	n := 0
+	for _, call := range core.CallsTo(fn, "github.com/AdguardTeam/golibs/stringutil.WriteToBuilder") {
+		// the strings written: elements of the variadic slice
+		for i := 1; i < len(call.Common.Args); i++ {
+			for _, el := range sliceLiteralElems(call.Arg(i)) {
+				if _, isConst := el.(*ssa.Const); isConst {
+					continue
+				}
+				n++
+				okLower := true
+				var bad []string
+				for _, leaf := range core.Leaves(el) {
+					if !core.IsCallResult(leaf, -1, "strings.ToLower") {
+						okLower = false
+						bad = append(bad, leaf.Name())
+						continue
+					}
+					// of an element of the configured list
+					lc, _, _ := core.CallResult(leaf)
+					fromHosts := false
+					for _, o := range core.Origins(lc.Common().Args[0], core.ProvOpts{Prog: p}) {
+						if o.Val == ssa.Value(hosts) {
+							fromHosts = true
+						}
+					}
+					if !fromHosts {
+						okLower = false
+						bad = append(bad, "lower-cased value is not an element of the configured list")
+					}
+				}
+				r.Check(okLower, "C03-D5", fmt.Sprintf("blocked-host-rule-lower-cased#%d", n), p.InstrPos(call.Instr),
+					"every configured blocked-host rule is lower-cased where the engine's rule text is built",
+					"a configured blocked-host rule reaches the engine in the case it was written in: request names are matched lower-cased, so a rule with a capital letter (from the configuration file, for one) never matches", bad...)
+			}
+		}
+	}
+	r.Floor("C03-D5", "blocked-host-rule-text-writes", n, 1)
+}
+
 func c03Entries(c *Ctx) {
+	c03HostRuleCase(c)
 	p, r := c.P, c.R
 	fn := p.Fn("dnsforward.processAccessClients")
 	if fn == nil {
@@ -757,7 +815,7 @@ func c03Entries(c *Ctx) {
 		}
 		if sf != ib && !okScan {
 			for _, h := range loopHeaders(sf) {
-				if strings.HasPrefix(h.Comment, "rangeindex") && len(core.CallsTo(sf, "(net/netip.Prefix).Contains")) > 0 {
+				if strings.HasPrefix(h.Comment, "rangeindex") && len(core.CallsToDeep(sf, "(net/netip.Prefix).Contains")) > 0 {
 					ib = sf // the loop lives in the helper: judge it there
 				}
 			}
@@ -793,4 +851,63 @@ func c03Entries(c *Ctx) {
 		}
 	}
 	r.Check(okScan, "C03-D5", "all-networks-tested", p.FnPos(ib), "the address is tested against every stored network unless a match is returned", "not every stored network is tested: "+why)
+}
+
+// c03DecisionTable evaluates the blocked result of IsBlockedClient for all 16 combinations of its inputs and compares
+// it with: allow-list mode ? (address excluded && ClientID excluded) : (address excluded || ClientID excluded), where
+// "address excluded" is false when no address is given.  It returns false when the evaluation is undecided.
+func c03DecisionTable(c *Ctx, ib *ssa.Function) (decided bool) {
+	p, r := c.P, c.R
+	isAddrParam := func(v ssa.Value) bool {
+		prm, ok := v.(*ssa.Parameter)
+		return ok && core.TypeKey(prm.Type()) == "net/netip.Addr"
+	}
+	m := core.AbsModel{
+		Project:   func(string, core.AbsVal) (string, bool) { return "", false },
+		Predicate: func(string, core.AbsVal) (string, bool) { return "", false },
+		Oracle: func(v ssa.Value) (string, bool) {
+			switch x := v.(type) {
+			case *ssa.Call:
+				switch {
+				case core.IsCallResult(x, -1, "(*dnsforward.accessManager).allowlistMode"):
+					return "mode", true
+				case core.IsCallResult(x, -1, "(*dnsforward.accessManager).isBlockedClientID"):
+					return "cid", true
+				case core.IsCallResult(x, -1, "(net/netip.Addr).IsValid") && len(x.Call.Args) == 1 && isAddrParam(x.Call.Args[0]):
+					return "given", true
+				}
+			case *ssa.Extract:
+				if x.Index == 0 && core.IsCallResult(x, 0, "(*dnsforward.accessManager).isBlockedIP") {
+					return "ip", true
+				}
+			case *ssa.BinOp:
+				if x.Op == token.NEQ {
+					if cst, ok := x.Y.(*ssa.Const); ok && cst.Value == nil && isAddrParam(x.X) {
+						return "given", true
+					}
+				}
+			}
+			return "", false
+		},
+	}
+	var bad []string
+	for i := 0; i < 16; i++ {
+		given, ip, mode, cid := i&1 != 0, i&2 != 0, i&4 != 0, i&8 != 0
+		f := core.AbsFacts{Pred: map[string][2]bool{"given": {given}, "ip": {ip}, "mode": {mode}, "cid": {cid}}}
+		res, ok, why := core.AbsEvalResult(ib, m, f, 0)
+		if !ok || res.Kind != core.AbsBool {
+			r.Info["C03-D4:IsBlockedClient:decision-table"] = "not decided by abstract evaluation (" + why + "); decided by the path rule instead"
+			return false
+		}
+		byIP := given && ip
+		want := (mode && byIP && cid) || (!mode && (byIP || cid))
+		if res.Bool != want {
+			bad = append(bad, fmt.Sprintf("address given=%v excluded=%v, allow-list mode=%v, ClientID excluded=%v: blocked=%v, must be %v", given, ip, mode, cid, res.Bool, want))
+		}
+	}
+	c.R.Eval(16)
+	r.Check(len(bad) == 0, "C03-D4", "IsBlockedClient:decision-table", p.FnPos(ib),
+		"blocked equals (allow-list mode: address and ClientID both excluded; block-list mode: one of them excluded) for all 16 input combinations",
+		"the blocked result differs from the access rule for some input combination", bad...)
+	return true
 }
